@@ -5,7 +5,8 @@ from oracle_util import *  # noqa
 from tokutil import *  # noqa
 
 ID = "C02"
-LEAN_MODULE = "SCoda.Props.C02"
+LEAN_MODULE = ["SCoda.Props.C02", "SCoda.Props.Glue"]
+LEVEL = "proof"
 CLAUSES = [
     ("the vocabulary maps its tokens one-to-one onto the consecutive ids 0..size-1 (for duplicate-free bins: known finding D16)",
      ["SCoda.C02.vocab_nodup", "SCoda.C02.ids_consecutive", "SCoda.C02.vocab_not_nodup_with_duplicate_bins"]),
@@ -15,7 +16,8 @@ CLAUSES = [
     ("every token tokenise emits for an accepted input is a member (from any carried state)",
      ["SCoda.C02.tokenise_closed", "SCoda.C02.encode_total_on_tokenise"]),
     ("every vocabulary token is accepted by detokenise", ["SCoda.C02.detok_accepts", "SCoda.C02.detokenise_accepts"]),
-    ("glue: the merge/pairing code in front of the tokeniser core hands it events whose channels are track indices (hypothesis ChannelsOk)", None),
+    ("glue: the merge/pairing code in front of the tokeniser core hands it events whose channels are track indices (hypothesis ChannelsOk)",
+     ["SCoda.Glue.extract_channels"]),
 ]
 RULE = ("configurations: 16 flag combinations x velocity_bins x tracks 1..3 x pitch ranges x value sets (quick: 24 sampled, "
         "thorough: the lattice); the whole Python dictionary is compared with the model's rendered vocabulary entry by entry; "
